@@ -36,6 +36,11 @@ type HStep struct {
 	// with this record is made in two calls from ONE buffer that the caller
 	// reuses (an io.Copy loop): the second part overwrites the first.
 	WSplit int `json:"wsplit,omitempty"`
+	// Spill 1..4 (backend records, sequential histories, no WSplit): the Write
+	// that ends with this record also carries the first Spill octets of the
+	// NEXT backend record of the history (a backend whose flushes do not fall
+	// on record boundaries); the rest follows when that record's step comes.
+	Spill int `json:"spill,omitempty"`
 	// SplitAt > 0 (client records, sequential histories): the record arrives in
 	// two parts; between them the caller's read deadline expires (a timeout
 	// error from the transport), the caller extends it and reads on.
@@ -585,6 +590,19 @@ func runHistory(prop string, seed uint64, p *HistoryPlan, b *built, io_ *histIO,
 	var sigParts []string
 	var pendingW []byte
 	slowFirst := false
+	// spill: octets of a later backend record already handed to Write
+	spillFor, spillLen := -1, 0
+	var expectPrefix []byte
+	spillOut := 0
+	backendRec := func(i int, kind string) []byte {
+		switch kind {
+		case "hrr":
+			return hrrRecord(core.Mix(seed, "hrr", i))
+		case "sh":
+			return shRecord(seed, i)
+		}
+		return plainRecord(seed, kind, i)
+	}
 	defer func() {
 		if io_.settle != nil {
 			io_.settle()
@@ -593,17 +611,15 @@ func runHistory(prop string, seed uint64, p *HistoryPlan, b *built, io_ *histIO,
 	for i, st := range p.Steps {
 		sigParts = append(sigParts, st.Side+":"+st.Kind+fmt.Sprint(st.Join))
 		if st.Side == "b" {
-			var rec []byte
-			switch st.Kind {
-			case "hrr":
-				rec = hrrRecord(core.Mix(seed, "hrr", i))
-			case "sh":
-				rec = shRecord(seed, i)
-			default:
-				rec = plainRecord(seed, st.Kind, i)
-			}
+			rec := backendRec(i, st.Kind)
 			if len(pendingW) == 0 {
 				slowFirst = st.SlowReturn
+			}
+			if spillFor == i {
+				// its first octets went out with an earlier Write
+				expectPrefix = append([]byte(nil), rec[:spillLen]...)
+				rec = rec[spillLen:]
+				spillFor = -1
 			}
 			pendingW = append(pendingW, rec...)
 			flush := !(st.Join && i+1 < len(p.Steps) && p.Steps[i+1].Side == "b")
@@ -622,7 +638,7 @@ func runHistory(prop string, seed uint64, p *HistoryPlan, b *built, io_ *histIO,
 					res.Probe("write_returns_after_next_read")
 				}
 				slowFirst = false
-				if st.WSplit > 0 && !p.Concurrent && len(pendingW) > 1 && !slowFirst {
+				if st.WSplit > 0 && !p.Concurrent && len(pendingW) > 1 && !slowFirst && len(expectPrefix) == 0 && st.Spill == 0 {
 					// the forwarder's buffer is reused between the two calls
 					k := 1 + st.WSplit%(len(pendingW)-1)
 					if st.WSplit%3 == 0 {
@@ -661,19 +677,38 @@ func runHistory(prop string, seed uint64, p *HistoryPlan, b *built, io_ *histIO,
 					pendingW = nil
 					goto flushed
 				}
-				wn, werr := io_.write(pendingW)
+				var spill []byte
+				if st.Spill > 0 && !p.Concurrent {
+					for j := i + 1; j < len(p.Steps); j++ {
+						if p.Steps[j].Side == "b" {
+							nx := backendRec(j, p.Steps[j].Kind)
+							spillFor, spillLen = j, min(st.Spill, 4, len(nx)-1)
+							spill = nx[:spillLen]
+							res.Probe("backend_write_ends_inside_next_record")
+							break
+						}
+					}
+				}
+				wn, werr := io_.write(append(append([]byte(nil), pendingW...), spill...))
 				if *io_.pk != "" {
 					fail("panic", *io_.pk, "step %d: Write %s", i, st.Kind)
 					break
 				}
-				if werr != nil || wn != len(pendingW) {
+				if werr != nil || wn != len(pendingW)+len(spill) {
 					fail("history", "Conn.Write of a backend "+st.Kind+" record failed", "step %d: n=%d err=%v", i, wn, werr)
 					break
 				}
-				if got := io_.out()[outLen:]; !bytes.Equal(got, pendingW) {
-					fail("history", "backend "+st.Kind+" record not forwarded unchanged", "step %d: %d bytes written, records have %d", i, len(got), len(pendingW))
+				// everything handed over so far has been passed on, except possibly
+				// the octets of a record that is not complete yet
+				all := append(append(append([]byte(nil), expectPrefix...), pendingW...), spill...)
+				got := io_.out()[outLen-spillOut:]
+				least := len(all) - len(spill)
+				if len(got) < least || len(got) > len(all) || !bytes.Equal(got, all[:len(got)]) {
+					fail("history", "backend "+st.Kind+" record not forwarded unchanged", "step %d: client has %d octets of the %d handed over in this call and the one before (%d of them belong to a record that is not complete yet)", i, len(got), len(all), len(spill))
 					break
 				}
+				spillOut = len(got) - least // octets of the incomplete record already passed on
+				expectPrefix = nil
 				pendingW = nil
 			}
 		flushed:
@@ -838,6 +873,8 @@ func genC06(seed uint64, idx int) *Plan {
 			st.SlowReturn = h.Concurrent && r.IntN(2) == 0
 			if !h.Concurrent && r.IntN(4) == 0 {
 				st.WSplit = 1 + r.IntN(1<<16)
+			} else if !h.Concurrent && r.IntN(5) == 0 {
+				st.Spill = 1 + r.IntN(4)
 			}
 		} else {
 			st = HStep{Side: "c", Kind: cKinds[r.IntN(len(cKinds))], A: r.IntN(1 << 20), RealCtx: r.IntN(2) == 0}
